@@ -406,13 +406,22 @@ Proof.
     set (q1 := set_qs q (mq_putq q) (mq_getq q ++ [a])).
     destruct (run_getq_spec (length (mq_getq q1)) q1 (set_qs_inv _ _ _ HI)) as
         (q2 & outs & R & HI2 & (Hi & Hw) & Hc2 & Ha2 & Hcl2 & Hmono & Hfin).
-    rewrite R. exists 0%N, (run_notify q2), outs. split; [reflexivity|]. split.
-    + apply notify_inv. split; [exact HI2|]. split.
-      * intros Hne. apply Hfin; auto.
+    rewrite R.
+    assert (Pre2: mq_getq q2 <> [] -> mq_len q2 = 0) by (intros Hne; apply Hfin; auto).
+    destruct (run_putq_spec (length (mq_putq q2)) q2 HI2 Pre2) as
+        (q3 & o3 & R3 & HI3 & (Hi3 & Hw3) & Hc3 & Ha3 & Hcl3 & Hmono3 & Hmax3 & Hgl3 & Hge3 & Hfin3).
+    rewrite R3. exists 0%N, (run_notify q3), (outs ++ o3). split; [reflexivity|]. split.
+    + apply notify_inv. split; [exact HI3|]. split.
+      * intros Hne. destruct (Hfin3 (le_n _)) as [F1 _]. split; [|auto].
+        rewrite (Hgl3 Hne).
+        assert (Hq: mq_getq q2 <> []) by (intros E; apply Hne, Hge3; exact E).
+        apply Hfin; auto.
       * unfold BInv in *. unfold q1 in *; simp_m. lia.
-    + cbn [step_law]. right. rewrite notify_items. split; [exact Hi|]. split.
-      * simp_m. unfold q1 in Hc2; simp_m. exact Hc2.
-      * exact Hw.
+    + cbn [step_law]. right. rewrite notify_items, !accepted_app, !consumed_app. split.
+      * change (items q) with (items q1). rewrite app_assoc, Hi, <- !app_assoc. f_equal. exact Hi3.
+      * split.
+        -- simp_m. unfold q1 in Hc2; simp_m. lia.
+        -- simp_m. rewrite <- app_assoc, <- Hw3. exact Hw.
   - (* tryput *)
     destruct (mq_closed q) eqn:ECl.
     { exists ECLOSED, q, []. split; [reflexivity|]. split; [split; auto|].
@@ -620,8 +629,12 @@ Proof.
     match type of S with context [if ?b then _ else _] => destruct b end; [inversion S; subst; exact Hle|].
     set (q1 := set_qs q (mq_putq q) (mq_getq q ++ [a])) in *.
     destruct (run_getq_spec (length (mq_getq q1)) q1 (set_qs_inv _ _ _ HM)) as
-        (q2 & outs2 & R & _ & _ & Hc2 & _ & _ & Hmono & _).
-    rewrite R in S. inversion S; subst. simp_m. unfold q1 in *; simp_m. lia.
+        (q2 & outs2 & R & HI2 & _ & Hc2 & _ & _ & Hmono & Hfin).
+    rewrite R in S.
+    assert (Pre2: mq_getq q2 <> [] -> mq_len q2 = 0) by (intros Hne; apply Hfin; auto).
+    destruct (run_putq_spec (length (mq_putq q2)) q2 HI2 Pre2) as
+        (q3 & o3 & R3 & _ & _ & Hc3 & _ & _ & _ & Hmax3 & _).
+    rewrite R3 in S. inversion S; subst. simp_m. unfold q1 in *; simp_m. lia.
   - cbn [msgq_step] in S. destruct (mq_closed q); [inversion S; subst; exact Hle|].
     destruct (mq_getq q); [|inversion S; subst; simp_m; exact Hle].
     destruct (mq_len q <? mq_cap q) eqn:EL; [|inversion S; subst; exact Hle].
@@ -640,3 +653,109 @@ Definition msgq_unfixed_witness : option (msgq * list (N * list mout)) :=
      MAioGet 104 true; MTryPut 5; MTryPut 6; MTryPut 7; MTryPut 8; MResize 0 false]%N.
 Theorem msgq_resize_unfixed_refuted : msgq_unfixed_witness = None.
 Proof. vm_compute. reflexivity. Qed.
+
+(* ---- no writer waits while there is room (since fix e654d99: nni_msgq_aio_get runs the
+        writer side too); the pinned form left a blocked writer waiting on an empty queue ---- *)
+Definition WaitInv (q : msgq) : Prop := mq_putq q <> [] -> mq_cap q <= mq_len q.
+
+Lemma run_getq_no_reader fuel q : mq_getq q = [] -> run_getq fuel q = Some (q, []).
+Proof. intros E. destruct fuel; cbn [run_getq]; [reflexivity|]. rewrite E. reflexivity. Qed.
+
+Lemma map_snd_nil {A B} (l : list (A * B)) : map snd l = [] -> l = [].
+Proof. destruct l; [reflexivity|discriminate]. Qed.
+
+Theorem msgq_waitinv_step q o rv q' outs : AllInv q -> WaitInv q ->
+  msgq_step true q o = Some (rv, q', outs) -> WaitInv q'.
+Proof.
+  intros (HI & HQ & HB) HW S. unfold WaitInv in *.
+  destruct o as [a m ok|a ok|m|a rv0| |cap fail|]; cbn [msgq_step] in S.
+  - match type of S with context [if ?b then _ else _] => destruct b end; [inversion S; subst; exact HW|].
+    set (q1 := set_qs q (mq_putq q ++ [(a, m)]) (mq_getq q)) in *.
+    destruct (run_putq_spec (length (mq_putq q1)) q1 (set_qs_inv _ _ _ HI)) as
+        (q2 & outs2 & R & _ & _ & Hc2 & _ & _ & _ & _ & _ & _ & Hfin).
+    { unfold q1; simp_m. intros Hne. apply HQ; auto. }
+    rewrite R in S. inversion S; subst. simp_m. intros Hne. destruct (Hfin (le_n _)) as [_ F]. rewrite Hc2. apply F. exact Hne.
+  - match type of S with context [if ?b then _ else _] => destruct b end; [inversion S; subst; exact HW|].
+    set (q1 := set_qs q (mq_putq q) (mq_getq q ++ [a])) in *.
+    destruct (run_getq_spec (length (mq_getq q1)) q1 (set_qs_inv _ _ _ HI)) as
+        (q2 & outs2 & R & HI2 & _ & Hc2 & _ & _ & Hmono & Hfin).
+    rewrite R in S.
+    assert (Pre2: mq_getq q2 <> [] -> mq_len q2 = 0) by (intros Hne; apply Hfin; auto).
+    destruct (run_putq_spec (length (mq_putq q2)) q2 HI2 Pre2) as
+        (q3 & o3 & R3 & _ & _ & Hc3 & _ & _ & _ & _ & _ & _ & Hfin3).
+    rewrite R3 in S. inversion S; subst. simp_m. intros Hne. destruct (Hfin3 (le_n _)) as [_ F]. rewrite Hc3. apply F. exact Hne.
+  - destruct (mq_closed q); [inversion S; subst; exact HW|].
+    destruct (mq_getq q) as [|ra rrest]; [|inversion S; subst; simp_m; exact HW].
+    destruct (mq_len q <? mq_cap q) eqn:EL; [|inversion S; subst; exact HW].
+    apply Nat.ltb_lt in EL.
+    destruct (ring_put_spec q m HI ltac:(destruct HI as (Hc & _); unfold mq_alloc in *; lia)) as
+        (q1 & P & _ & _ & Hl1 & Hc1 & Hp1 & _).
+    rewrite P in S. inversion S; subst. simp_m. rewrite Hp1. intros Hne. specialize (HW Hne). lia.
+  - inversion S; subst. simp_m. intros Hne. apply HW. intros E. rewrite E in Hne. apply Hne. reflexivity.
+  - match type of S with context [match ?d with Some _ => _ | None => _ end] => destruct d as [[q1 o1]|] end; [|discriminate].
+    inversion S; subst. simp_m. intros Hne. congruence.
+  - destruct ((mq_alloc q <? cap + 2) && fail); [inversion S; subst; exact HW|].
+    destruct (drop_excess_spec is_geb (mq_len q) cap good_geb q HI (le_n _)) as
+        (q1 & o1 & D & HI1 & L1 & Hit & Hc1 & Hp1 & Hg1 & Ha1 & Hcl1 & Hfree).
+    rewrite D in S.
+    assert (RES: exists q2,
+      (if negb (mq_alloc q <? cap + 2)
+       then Some (mkMsgq cap (mq_len q1) (mq_get q1) (mq_put q1) (mq_closed q1) (mq_cells q1)
+                         (mq_putq q1) (mq_getq q1) (mq_sendable q1) (mq_recvable q1))
+       else copy_ring (mq_len q1) (mq_cells q1) (mq_get q1)
+              (mkMsgq cap 0 0 0 (mq_closed q1) (repeat 0%N (cap + 2)) (mq_putq q1) (mq_getq q1)
+                      (mq_sendable q1) (mq_recvable q1))) = Some q2 /\
+      MInv q2 /\ mq_len q2 = mq_len q1 /\ mq_cap q2 = cap /\ mq_getq q2 = mq_getq q1).
+    { destruct (mq_alloc q <? cap + 2) eqn:EG; cbn [negb].
+      - apply Nat.ltb_lt in EG.
+        set (qn := mkMsgq cap 0 0 0 (mq_closed q1) (repeat 0%N (cap + 2)) (mq_putq q1) (mq_getq q1)
+                          (mq_sendable q1) (mq_recvable q1)).
+        assert (HIn: MInv qn).
+        { unfold MInv, mq_alloc, qn. simp_m. rewrite repeat_length. repeat split; try lia.
+          rewrite Nat.mod_small; lia. }
+        pose proof HI1 as (_ & _ & Hg1' & _).
+        destruct (copy_ring_spec (mq_len q1) (mq_cells q1) (mq_get q1) qn Hg1' HIn) as
+            (q2 & C & HI2 & Hit2 & Hl2 & Hc2 & Hp2 & Hg2 & Ha2 & Hcl2).
+        { unfold mq_alloc, qn. simp_m. rewrite repeat_length. lia. }
+        exists q2. split; [exact C|]. split; [exact HI2|]. unfold qn in *; simp_m. repeat split; auto; lia.
+      - apply Nat.ltb_ge in EG. eexists. split; [reflexivity|].
+        pose proof HI1 as (A1 & A2 & A3 & A4). split.
+        { unfold MInv, mq_alloc in *. simp_m. repeat split; auto; lia. }
+        simp_m. repeat split; auto. }
+    destruct RES as (q2 & E2 & HI2 & Hl2 & Hc2 & Hg2). rewrite E2 in S.
+    assert (Pre2: mq_getq q2 <> [] -> mq_len q2 = 0).
+    { intros Hne. rewrite Hg2, Hg1 in Hne. destruct (HQ Hne) as [L0 _]. lia. }
+    destruct (run_putq_spec (length (mq_putq q2)) q2 HI2 Pre2) as
+        (q3 & o3 & R3 & HI3 & _ & Hc3 & _ & _ & _ & _ & _ & _ & Hfin3).
+    rewrite R3 in S. destruct (Hfin3 (le_n _)) as [F1 F2].
+    destruct (mq_getq q3) as [|r0 rr] eqn:EG3.
+    + rewrite (run_getq_no_reader _ q3 EG3) in S. inversion S; subst. simp_m. intros Hne. rewrite Hc3. apply F2. exact Hne.
+    + destruct (run_getq_spec (length (mq_getq q3)) q3 HI3) as
+          (q4 & o4 & R4 & _ & (_ & Hw4) & _).
+      rewrite EG3 in R4. rewrite R4 in S. inversion S; subst. simp_m.
+      assert (P3: mq_putq q3 = []) by (apply F1; congruence).
+      rewrite P3 in Hw4. cbn in Hw4. symmetry in Hw4. apply app_eq_nil in Hw4 as [_ Hw4].
+      apply map_snd_nil in Hw4. intros Hne. congruence.
+  - inversion S; subst. simp_m. exact HW.
+Qed.
+
+Theorem msgq_waitinv_run ops : forall q q' res, AllInv q -> WaitInv q ->
+  msgq_run true q ops = Some (q', res) -> WaitInv q'.
+Proof.
+  induction ops as [|o r IH]; intros q q' res HI HW H; cbn [msgq_run] in H.
+  - inversion H; subst. exact HW.
+  - destruct (msgq_step_spec q o HI) as (rv & q1 & outs & S & HI1 & _). rewrite S in H.
+    destruct (msgq_run true q1 r) as [[q2 res2]|] eqn:E; [|discriminate]. inversion H; subst.
+    eapply IH; [exact HI1| |exact E]. eapply msgq_waitinv_step; [split; [exact (proj1 HI)|exact (proj2 HI)]|exact HW|exact S].
+Qed.
+
+(* the pinned nni_msgq_aio_get: capacity 1, one message buffered, a writer blocks, a reader takes
+   the buffered message: the writer keeps waiting although the queue is empty *)
+Definition msgq_get_witness (fixed : bool) : option (msgq * list (N * list mout)) :=
+  msgq_run fixed (msgq_init 1) [MTryPut 1; MAioPut 201 2 true; MAioGet 101 true]%N.
+Theorem msgq_get_leaves_writer_refuted :
+  exists q res, msgq_get_witness false = Some (q, res) /\ mq_putq q = [(201, 2)]%N /\ mq_len q = 0 /\ mq_cap q = 1.
+Proof. eexists _, _. split; [vm_compute; reflexivity|repeat split]. Qed.
+Theorem msgq_get_admits_writer_on_witness :
+  exists q res, msgq_get_witness true = Some (q, res) /\ mq_putq q = [] /\ mq_len q = 1.
+Proof. eexists _, _. split; [vm_compute; reflexivity|repeat split]. Qed.
